@@ -232,9 +232,13 @@ func (c *Conv) setPaddingWithAutoPad(x tensor.Tensor) {
 	c.pads = make([]int, nSpatialDims*NPadsPerDim)
 
 	for i := 0; i < nSpatialDims; i++ {
-		dim := inputShape[i]
+		dim := inputShape[i+nNonSpatialDims]
 		targetSize := (dim + c.strides[i] - 1) / c.strides[i]
+
 		padNeeded := (targetSize-1)*c.strides[i] + c.kernelShape[i] - dim
+		if padNeeded < 0 {
+			padNeeded = 0
+		}
 
 		var padHead int
 		if c.autoPad == SameLower {
